@@ -598,7 +598,8 @@ pub fn c08(tier: &str, seed: u64, meta: &str) -> Report {
     let pr = &p;
     // one base per final-character class of the joining rules: khanda-ta, anusvara, every vowel sign
     // (aa i ii u uu ri e oi o ou), independent vowels, a consonant, an auto-correct key
-    let bases_q = ["bidyut", "rong", "ami", "desh", "ma", "hothat", "kkhet", "form", "bou", "nodi", "bondhu", "bodhu", "matri", "ke", "koi", "alo", "keu", "boi", "dao"];
+    // ... and two whose candidates hold the special final character twice (only the final one is turned)
+    let bases_q = ["bidyut", "rong", "ami", "desh", "ma", "hothat", "kkhet", "form", "bou", "nodi", "bondhu", "bodhu", "matri", "ke", "koi", "alo", "keu", "boi", "dao", "totkkhonat", "hongkong"];
     let mut bases: Vec<String> = bases_q.iter().map(|s| s.to_string()).collect();
     // a bundled auto-correct row that maps a text to itself (its entry is a direct candidate like any other)
     if let Some(k) = p.ac_keys.iter().find(|k| k.chars().all(|c| c.is_ascii_alphanumeric()) && k.len() >= 3 && p.data.autocorrect.get(*k) == Some(*k) && p.typeable(k)) { bases.push(k.clone()); }
@@ -608,16 +609,23 @@ pub fn c08(tier: &str, seed: u64, meta: &str) -> Report {
         for s in ["bangla", "manush", "kotha", "sesh", "boi", "dhaka", "shongbad", "prothom"] { bases.push(s.into()); }
     }
     let ns = p.suffix_keys.len() as u64;
-    let total = ns * bases.len() as u64;
+    // every auto-correct key that is another auto-correct key followed by a suffix key (both have an entry of their own:
+    // the base's entry still has to appear in joined form)
+    let ackeys: HashSet<&str> = p.ac_keys.iter().map(|s| s.as_str()).collect();
+    let mut ac_pairs: Vec<(String, String)> = Vec::new();
+    for k in &p.ac_keys { if !k.is_ascii() { continue; } for cut in 1..k.len() { let (b, sfx) = k.split_at(cut); if ackeys.contains(b) && p.suffix_keys.iter().any(|x| x == sfx) && p.typeable(k) { ac_pairs.push((b.to_string(), sfx.to_string())); } } }
+    let n_pairs = ac_pairs.len() as u64;
+    let ac_pairs = &ac_pairs;
+    let total = ns * bases.len() as u64 + n_pairs;
     let bases = &bases;
     let mut rep = par_items(total, |_| (Worker2::new(pr.data.clone()), None::<Session>), |st, i, rep| {
         let (w, sess) = st;
-        let base = &bases[(i / ns) as usize];
-        let suf_key = &pr.suffix_keys[(i % ns) as usize];
+        let paired = i >= ns * bases.len() as u64;
+        let (base, suf_key) = if paired { let pr2 = &ac_pairs[(i - ns * bases.len() as u64) as usize]; (&pr2.0, &pr2.1) } else { (&bases[(i / ns) as usize], &pr.suffix_keys[(i % ns) as usize]) };
         // one case in seven types the suffix with its first letter in upper case: in the Avro scheme that is another
         // letter, the remainder is then (usually) no suffix key and nothing may be derived from the suffix table
         let upper: String = { let mut cs: Vec<char> = suf_key.chars().collect(); cs[0] = cs[0].to_ascii_uppercase(); cs.into_iter().collect() };
-        let suf_key = if i % 7 == 3 && upper != *suf_key { &upper } else { suf_key };
+        let suf_key = if !paired && i % 7 == 3 && upper != *suf_key { &upper } else { suf_key };
         let wrapped = i % 5 == 0;
         if sess.is_none() { *sess = psession(w, 2, true, None, None, "c08").ok(); }
         let s = match sess.as_mut() { Some(s) => s, None => return };
@@ -678,7 +686,7 @@ pub fn c08(tier: &str, seed: u64, meta: &str) -> Report {
         }
         if rep.samples.len() < 2 && i % 733 == 0 { rep.sample(info("sample", json!(null))); }
     });
-    rep.extra.insert("rule".into(), json!(format!("{} base words (candidates ending in khanda-ta, anusvara, a vowel, a consonant; an auto-correct key; multi-candidate words) x ALL {} suffix keys of suffix.json (exhaustive over the suffix table), a fifth of them wrapped in punctuation, a seventh with the suffix's first letter in upper case (another Avro letter: soundness only); base and base+suffix are typed in the same context; completeness and soundness are judged with okkhor's pattern over ALL dictionary tables, suffix.json and autocorrect.json read independently; non-trivial = the base has direct candidates", bases.len(), ns)));
+    rep.extra.insert("rule".into(), json!(format!("{} base words (candidates ending in khanda-ta, anusvara, a vowel, a consonant; an auto-correct key; multi-candidate words) x ALL {} suffix keys of suffix.json (exhaustive over the suffix table), a fifth of them wrapped in punctuation, a seventh with the suffix's first letter in upper case (another Avro letter: soundness only); plus every auto-correct key that is another auto-correct key + a suffix key; base and base+suffix are typed in the same context; completeness and soundness are judged with okkhor's pattern over ALL dictionary tables, suffix.json and autocorrect.json read independently; non-trivial = the base has direct candidates", bases.len(), ns)));
     rep.extra.insert("exhaustive".into(), json!(true));
     // which final characters of direct base candidates (the selector of the joining rule) were exercised
     let mut w = Worker2::new(pr.data.clone());
@@ -714,7 +722,7 @@ pub fn c09(tier: &str, seed: u64, meta: &str) -> Report {
     let mut by_len = p.suffix_keys.clone();
     by_len.sort_by_key(|s| std::cmp::Reverse(s.len()));
     let by_len = &by_len;
-    let words = ["sesh", "ami", "desh", "kotha", "bhasha", "form", "as", "bidyut", "rong", "ma", "tumi", "manush", "boi", "din", "kaj", "shob", "mon", "jol", "hat", "gan"];
+    let words = ["sesh", "ami", "desh", "kotha", "bhasha", "form", "as", "bidyut", "rong", "ma", "tumi", "manush", "boi", "din", "kaj", "shob", "mon", "jol", "hat", "gan", "xD", "a", "e"];
     // pairs of suffix keys (c s', s') with one more letter in front: a text b + c s' is also (b c) + s'
     let keyset: HashSet<&str> = p.suffix_keys.iter().map(|s| s.as_str()).collect();
     let pairs: Vec<(String, String, String)> = p.suffix_keys.iter().filter(|k| k.len() >= 2 && k.is_char_boundary(1) && keyset.contains(&k[1..]) && k.as_bytes()[0].is_ascii_lowercase())
@@ -870,7 +878,9 @@ pub fn c09(tier: &str, seed: u64, meta: &str) -> Report {
         let (cl, cr) = if smart == 1 { (curl(&bare_l, true), curl(&bare_r, false)) } else { (bare_l.clone(), bare_r.clone()) };
         if let Some(core) = expect.strip_prefix(cl.as_str()).and_then(|x| x.strip_suffix(cr.as_str())).map(str::to_string) {
             for n in 0..3 {
-                let sk = if n == 0 { &by_len[(i as usize) % 12] } else { rng.pick(&pr.suffix_keys) };
+                // a one-letter word is followed by one-letter suffixes too (the shortest text the rule applies to)
+                let one: Vec<&String> = pr.suffix_keys.iter().filter(|k| k.len() == 1).collect();
+                let sk = if word.len() == 1 && n < 2 && !one.is_empty() { *rng.pick(&one) } else if n == 0 { &by_len[(i as usize) % 12] } else { rng.pick(&pr.suffix_keys) };
                 let t2 = format!("{}{}", word, sk);
                 if words.contains(&t2.as_str()) { continue; }
                 let sb = w.oracle.suffix(sk).cloned().unwrap();
